@@ -198,6 +198,20 @@ class World:
 
 
 # ------------------------------------------------------------------------------------------------
+MISSING = -1
+PEEK_MISSES = {}
+_PEEK_EXC = (KeyError, AttributeError, IndexError, TypeError, ValueError)
+
+
+def _peek(f, default=MISSING, label="tls"):
+    """labelled peek at private state of a tls.Context: f() or the distinguished token (never raises)"""
+    try:
+        return f()
+    except _PEEK_EXC:
+        PEEK_MISSES[label] = PEEK_MISSES.get(label, 0) + 1
+        return default
+
+
 def _ks_generation(ctx):
     if ctx.key_schedule is not None:
         return ctx.key_schedule.generation
@@ -215,36 +229,57 @@ def _lst(xs):
     return [len(xs)] + xs
 
 
+def _plst(f, label):
+    """[len] + items, or [MISSING] when the list cannot be read"""
+    return _peek(lambda: _lst(f()), [MISSING], label)
+
+
 def _opt(x):
     return [0] if x is None else [1, int(x)]
 
 
 def snapshot(ctx):
-    """cfg + ctx tokens of exec_tlsrecv"""
+    """cfg + ctx tokens of exec_tlsrecv -- a labelled peek at the Context's private attributes; what cannot be read becomes
+    the token MISSING (a list: length MISSING), so a changed layout is a model/impl disagreement, never an abort"""
     from aioquic import tls
     t = []
-    t += _lst(ctx._cipher_suites)
-    t += _lst(ctx._signature_algorithms)
-    if ctx._alpn_protocols is None:
+    t += _plst(lambda: ctx._cipher_suites, "_cipher_suites")
+    t += _plst(lambda: ctx._signature_algorithms, "_signature_algorithms")
+    alpn = _peek(lambda: ctx._alpn_protocols, MISSING, "_alpn_protocols")
+    if alpn is None:
         t += [0]
+    elif alpn == MISSING:
+        t += [MISSING]
     else:
-        t += [1, len(ctx._alpn_protocols)]
-        for a in ctx._alpn_protocols:
-            t += _lst(a.encode("ascii"))
-    t += _lst(ctx._signature_algorithms_for_private_key())
-    psk = None
-    if ctx._is_client and ctx.session_ticket is not None and ctx.session_ticket.is_valid:
-        psk = int(ctx.session_ticket.cipher_suite)
-    t += [int(ctx._verify_mode != ssl.CERT_NONE), int(bool(ctx._request_client_certificate)), int(ctx.alpn_cb is not None),
-          int(ctx.get_session_ticket_cb is not None), int(ctx.new_session_ticket_cb is not None),
-          int(ctx._x25519_private_key is not None), int(ctx._x448_private_key is not None)]
-    t += _lst([int(tls.CURVE_TO_GROUP[k.curve.__class__]) for k in ctx._ec_private_keys]) if ctx._is_client else [0]
+        t += [1, len(alpn)]
+        for a in alpn:
+            t += _plst(lambda: a.encode("ascii"), "_alpn_protocols")
+    t += _plst(lambda: ctx._signature_algorithms_for_private_key(), "_signature_algorithms_for_private_key")
+    is_client = _peek(lambda: bool(ctx._is_client), False, "_is_client")
+
+    def _psk():
+        if is_client and ctx.session_ticket is not None and ctx.session_ticket.is_valid:
+            return int(ctx.session_ticket.cipher_suite)
+        return None
+    psk = _peek(_psk, None, "session_ticket")
+    t += [_peek(lambda: int(ctx._verify_mode != ssl.CERT_NONE), MISSING, "_verify_mode"),
+          _peek(lambda: int(bool(ctx._request_client_certificate)), MISSING, "_request_client_certificate"),
+          _peek(lambda: int(ctx.alpn_cb is not None), MISSING, "alpn_cb"),
+          _peek(lambda: int(ctx.get_session_ticket_cb is not None), MISSING, "get_session_ticket_cb"),
+          _peek(lambda: int(ctx.new_session_ticket_cb is not None), MISSING, "new_session_ticket_cb"),
+          _peek(lambda: int(ctx._x25519_private_key is not None), MISSING, "_x25519_private_key"),
+          _peek(lambda: int(ctx._x448_private_key is not None), MISSING, "_x448_private_key")]
+    t += _plst(lambda: [int(tls.CURVE_TO_GROUP[k.curve.__class__]) for k in ctx._ec_private_keys], "_ec_private_keys") \
+        if is_client else [0]
     t += _opt(psk)
-    t += [ctx.state.value]
-    t += _lst(ctx._receive_buffer)
-    t += [int(ctx._session_resumed)]
-    t += _opt(ctx._key_schedule_psk.cipher_suite if ctx._key_schedule_psk is not None else None)
-    t += [int(ctx._key_schedule_proxy is not None), _ks_generation(ctx), int(ctx._peer_certificate is not None)]
+    t += [_peek(lambda: ctx.state.value, MISSING, "state")]
+    t += _plst(lambda: ctx._receive_buffer, "_receive_buffer")
+    t += [_peek(lambda: int(ctx._session_resumed), MISSING, "_session_resumed")]
+    t += _peek(lambda: _opt(ctx._key_schedule_psk.cipher_suite if ctx._key_schedule_psk is not None else None), [MISSING],
+               "_key_schedule_psk")
+    t += [_peek(lambda: int(ctx._key_schedule_proxy is not None), MISSING, "_key_schedule_proxy"),
+          _peek(lambda: _ks_generation(ctx), MISSING, "key_schedule"),
+          _peek(lambda: int(ctx._peer_certificate is not None), MISSING, "_peer_certificate")]
     return t
 
 
@@ -306,13 +341,14 @@ class Recorder:
         from cryptography.exceptions import InvalidSignature, UnsupportedAlgorithm
         from cryptography.hazmat.primitives.asymmetric import ec, ed448, ed25519, rsa
         tls, ctx = self.tls, self.ctx
-        msg = bytes(input_buf.data_slice(0, input_buf.capacity))
         r = {"share": [], "tp": (0, 0), "ticket": -1, "binder": 1, "load": 1, "pubkey": 1, "sig": 1, "vcert": 0, "mac": 1}
         if self.holder is not None:
             self.holder.rec = r
         self.rec = r
         self.records.append(r)
-        st = ctx.state.value
+        # this runs INSIDE the implementation's call (wrapper around _handle_reassembled_message): nothing here may raise
+        msg = _peek(lambda: bytes(input_buf.data_slice(0, input_buf.capacity)), b"", "input_buf")
+        st = _peek(lambda: ctx.state.value, MISSING, "state")
         try:
             if message_type == 20 and st == 6:
                 r["mac"] = int(msg[4:] == ctx.key_schedule.finished_verify_data(ctx._dec_key))
